@@ -100,6 +100,8 @@ def rendered_isolation(rep, sample, d) -> None:
             if fs.get(fixed) != rs.get(fixed):
                 rep.violate(f"C08/fixed-module-differs/{fixed}", f"{fixed} differs between faulty and repaired tree", adoc=adoc)
         pkgs.append((str(d), f.name))
+        for prob in treegen.relative_import_check(f)[:3]:
+            rep.violate(f"C08/remaining-module-refers-to-removed/{pipe.sig(adoc)}", f"faulty tree: {prob}", adoc=adoc, problem=prob)
         rep.count(1)
     bad = treegen.import_check(pkgs)
     by = {f.name: c for c, f, r in meta}
